@@ -235,6 +235,9 @@ def main() -> int:
     timeout = int(cfg.get("watchdog_s", 900)) + 60
     scratch = tempfile.mkdtemp(prefix=f"verif_{prop}_", dir=os.environ.get("VERIF_SCRATCH", tempfile.gettempdir()))
     try:
+        if args.replay and (replay_shard is None or replay_shard < 0):
+            # a witness found by the cross-shard join: replay = the whole run with the recorded seed
+            args.replay = None
         shards = [replay_shard] if args.replay else list(range(nshards))
         par = int(os.environ.get("VERIF_JOBS", "16"))
         with ThreadPoolExecutor(max_workers=par) as ex:
